@@ -50,6 +50,14 @@ CLAIMS = {
         text="Exhaustive by solver query: for ALL 65536 values of each 16-bit code (one symbolic u16 per query) Display->FromStr round-trips for Type, Class, Qtype, Qclass; the RFC 3597 TYPEn/CLASSn decimal form assembled in the harness parses to n for every n; every mnemonic of the reference tables parses to its code under every per-letter case mask; Opcode/Rcode TryFrom<u8> accept exactly values < 16 (all 256 values) and Rcode TryFrom<ExtendedRcode> exactly values < 16 with the value preserved.",
         note="Mnemonic tables are written from the RFCs in the harness (RFC 1035, 1995, 2136, 2782, 3596, 6891, 8945). Texts other than canonical Display output, mnemonics in any case and TYPEn/CLASSn without leading zeros are outside the claim (e.g. leading zeros, '+' signs).",
         ref="DESIGN.md A4.2, B-C17"),
+    "C12": dict(
+        text="Bounded: (a) one-step checks from arbitrary small writer states, all values symbolic: Writer::new / set_limit clamping and the invariant cursor <= available <= limit <= len, try_push and with_rollback atomicity (a failing operation changes nothing), every header field setter vs independent bit extraction, set_extended_rcode for all u16 values with and without EDNS (the 12-bit extended RCODE decoded from OPT TTL and header equals the value given), count overflow on all add paths, TSIG reservation arithmetic; (b) 16 fixed operation programs of <= 3 add operations (question + A/NS/MX/SRV/TXT/CH-A/TYPE65280 records, hints None/Qname/MostRecentOwner/Explicit/MostRecentNameInRdata, three compression modes, clear_rrs, out-of-order refusals, templates) with symbolic ASCII case bits, TTLs, RDATA octets and a symbolic size limit before the last operation: the finished message decodes (independent decoder) to exactly the operations that succeeded, n <= limit, no Truncation when the uncompressed encoding fits, refused operations change nothing.",
+        note="64-octet message buffers, one-letter labels, names of 2-4 labels. Stub S8 (Writer::write as element-wise stores, proven equal to the real copy_from_slice by c12_write_matches_model for lengths <= 40). Not covered: finish() of a TSIG-carrying message (finish_with_mac moves state through Option::take; CBMC ran 100 min / 24 GB), signing modes (HMAC is inline asm), SOA/MINFO through the writer, symbolic operation selectors / random programs, failures in the middle of a program other than the concrete refusals of c12_prog_order_clear.",
+        ref="DESIGN.md A4.2, B-C12"),
+    "C13": dict(
+        text="Bounded: on the same operation programs and on dedicated harnesses for the heuristic scan of write_compressed_unhinted_name (two prior names incl. label+pointer forms, compressees of 2-4 labels with symbolic case): every pointer in the finished message points strictly backwards to a label start of an earlier name, none occurs inside SRV, CH-class A or unknown-type RDATA, none at all in Disabled mode, decompressed names equal the names given under the mode's case rule; Rdata::components classifies compressible names exactly for NS, MD, MF, CNAME, MB, MG, MR, PTR, MX, SOA, MINFO for ALL (class, type) pairs.",
+        note="Same bounds and stub S8 as C12; pointers to offsets >= 64 and the POINTER_MAX branches are outside the bound.",
+        ref="DESIGN.md A4.2, B-C13"),
 }
 
 GENERIC = dict(
